@@ -42,7 +42,7 @@ func ifaceOf(p *Prog, pkg, name string) *types.Interface {
 func runC14(c *Ctx) {
 	p := c.P
 	opk := p.ByPath[pkgOpaque]
-	c.Rule("R1", "TYP", "the value type configopaque.String implements Stringer, GoStringer, TextMarshaler and BinaryMarshaler", 4)
+	c.Rule("R1", "TYP", "the value type configopaque.String implements Stringer, GoStringer, TextMarshaler, BinaryMarshaler and fmt.Formatter (only a Formatter intercepts the verbs that are invalid for a string – %d, %c, %e … – for which fmt otherwise prints `%!d(configopaque.String=<secret>)`)", 5)
 	if opk == nil {
 		c.Anchor("config/configopaque")
 		return
@@ -52,7 +52,7 @@ func runC14(c *Ctx) {
 		c.Anchor("configopaque.String")
 		return
 	}
-	for _, it := range []struct{ pkg, name string }{{"fmt", "Stringer"}, {"fmt", "GoStringer"}, {"encoding", "TextMarshaler"}, {"encoding", "BinaryMarshaler"}} {
+	for _, it := range []struct{ pkg, name string }{{"fmt", "Stringer"}, {"fmt", "GoStringer"}, {"encoding", "TextMarshaler"}, {"encoding", "BinaryMarshaler"}, {"fmt", "Formatter"}} {
 		iface := ifaceOf(p, it.pkg, it.name)
 		if iface == nil {
 			c.Undecided("interface "+it.pkg+"."+it.name, "-", "not loaded")
